@@ -55,18 +55,19 @@ func genMatcher(r *Rng, w *World) Matcher {
 	if len(vals) > 0 {
 		present = Pick(r, vals)
 	}
-	part := func(s string) string {
+	part := func(str string) string {
+		s := []rune(str)
 		if len(s) < 2 {
-			return s
+			return str
 		}
 		switch r.Intn(3) {
 		case 0:
-			return s[:1+r.Intn(len(s)-1)] // proper prefix
+			return string(s[:1+r.Intn(len(s)-1)]) // proper prefix
 		case 1:
-			return s[1+r.Intn(len(s)-1):] // proper suffix
+			return string(s[1+r.Intn(len(s)-1):]) // proper suffix
 		}
 		a := r.Intn(len(s) - 1)
-		return s[a : a+1+r.Intn(len(s)-a-1)]
+		return string(s[a : a+1+r.Intn(len(s)-a-1)])
 	}
 	isRe := m.Op == "=~" || m.Op == "!~"
 	if !isRe {
@@ -89,8 +90,8 @@ func genMatcher(r *Rng, w *World) Matcher {
 	case x < 32:
 		m.Value = q(part(present)) // matches only a substring: must not select
 	case x < 44:
-		if len(present) > 0 {
-			m.Value = q(present[:1+r.Intn(len(present))]) + ".*"
+		if pr := []rune(present); len(pr) > 0 {
+			m.Value = q(string(pr[:1+r.Intn(len(pr))])) + ".*"
 		} else {
 			m.Value = ".*"
 		}
@@ -111,8 +112,8 @@ func genMatcher(r *Rng, w *World) Matcher {
 	case x < 92:
 		m.Value = q(present) + "|nomatch"
 	default:
-		if len(present) > 1 {
-			m.Value = ".*" + q(present[1:])
+		if pr := []rune(present); len(pr) > 1 {
+			m.Value = ".*" + q(string(pr[1:]))
 		} else {
 			m.Value = "x?"
 		}
